@@ -193,7 +193,22 @@ def playback(ws, cfg, h, ob):
             ob['witness'] = None
             ob['detail'] += '\n(no concrete counterexample produced by Kani)'
             return
-        src = open(os.path.join(ws, h.get('file') or cfg['append'][0]['to'])).read()
+        srcp = os.path.join(ws, h.get('file') or cfg['append'][0]['to'])
+        src = open(srcp).read()
+        # identical witnesses get identical test names (one per failed check / satisfied cover): drop the duplicates,
+        # otherwise the native test build fails with E0428
+        seen, out_src, last = set(), [], 0
+        for mt in re.finditer(r'#\[test\]\s*fn (kani_concrete_playback_\w+)\(\).*?\n\s*\}\n', src, re.S):
+            out_src.append(src[last:mt.start()])
+            if mt.group(1) not in seen:
+                seen.add(mt.group(1))
+                out_src.append(mt.group(0))
+            last = mt.end()
+        out_src.append(src[last:])
+        if len(''.join(out_src)) != len(src):
+            src = ''.join(out_src)
+            open(srcp, 'w').write(src)
+        names = list(dict.fromkeys(names))
         # Kani also emits playback tests for SATISFIED cover! statements (they pass natively): try the generated tests one
         # by one and keep the first that fails natively
         tests, out, failed, m = [], '', False, None
